@@ -197,6 +197,10 @@ const preludeBase = `(set-option :produce-models true)
 (declare-fun eptr_arr (Int) Int)
 (declare-fun eptr_idx (Int) Int)
 (assert (forall ((a Int) (i Int)) (! (and (= (eptr_arr (eptr a i)) a) (= (eptr_idx (eptr a i)) i) (< (eptr a i) 0)) :pattern ((eptr a i)))))
+(declare-fun sub (Int Int) Int)
+(declare-fun sub_base (Int) Int)
+(declare-fun sub_id (Int) Int)
+(assert (forall ((a Int) (i Int)) (! (and (= (sub_base (sub a i)) a) (= (sub_id (sub a i)) i) (< (sub a i) 0)) :pattern ((sub a i)))))
 (declare-fun tdiv (Int Int) Int)
 (declare-fun tmod (Int Int) Int)
 (define-fun godiv ((a Int) (b Int)) Int (ite (>= a 0) (div a b) (- (div (- a) b))))
